@@ -15,7 +15,11 @@
 //!   {"role":"final"|"fwd", "offu":Eu-h, "offd":Ed-h, "d":cltv_expiry_delta of B,
 //!    "up":"honest"|"silent", "dn":"honest"|"silent"|"early"|"lastmoment"|"lastfail"|"onchain"|"hold",
 //!    "x":int (C acts when h = Ed + x), "claim":int|null (final: claim_funds at deadline+claim),
-//!    "c1":int, "c2":int}
+//!    "c1":int, "c2":int, "wait":int (optional)}
+//! The sender (A) builds the onion itself from the script: incoming expiry h + offu, outgoing expiry
+//! h + offd, whatever B advertises (h = the height at which B looks at the HTLC).  `wait` blocks are
+//! mined between A's commitment dance and B's decision (the HTLC was stuck upstream); an outgoing
+//! expiry at or below the tip (offd <= 0) needs them, so wait defaults to max(0, 1 - offd).
 
 use bitcoin::hashes::Hash as _;
 use bitcoin::{OutPoint, Transaction, Txid};
@@ -491,13 +495,16 @@ fn run_case(run: u64, s: &Value, net_out: &mut Option<Net>) {
 	let d = geti(s, "d", 48) as u16;
 	let x = geti(s, "x", 0);
 	let claim_rel = s["claim"].as_i64();
+	// blocks between the commitment of A's HTLC and B's decision; offu / offd are relative to the
+	// height at which B decides
+	let wait = if role == "fwd" && dn != "cell" { geti(s, "wait", 0).max(1 - offd).max(0) } else { 0 };
 	let n = if role == "fwd" { 3 } else { 2 };
 	*net_out = Some(build(n, d));
 	let net = net_out.as_mut().unwrap();
 	net.c1 = geti(s, "c1", 1) as u32;
 	net.c2 = geti(s, "c2", 1) as u32;
 	let c = lightning::verif::consts();
-	net.ev(json!({"ev":"case","role":role,"up":up,"dn":dn,"d":d,"c1":net.c1,"c2":net.c2,"h":net.height,
+	net.ev(json!({"ev":"case","role":role,"up":up,"dn":dn,"d":d,"c1":net.c1,"c2":net.c2,"wait":wait,"h":net.height,
 		"consts":{"CCB":c.cltv_claim_buffer,"LGP":c.latency_grace_period_blocks,"MBC":c.max_blocks_for_conf,
 			"ARD":c.anti_reorg_delay,"HFB":c.htlc_fail_back_buffer,"MIND":c.min_cltv_expiry_delta,
 			"MINF":c.min_final_cltv_expiry_delta,"FAR":c.cltv_far_far_away}}));
@@ -541,7 +548,7 @@ fn run_case(run: u64, s: &Value, net_out: &mut Option<Net>) {
 	let mut hops = Vec::new();
 	let final_delta: u32;
 	if role == "fwd" {
-		final_delta = (offd - 1).max(0) as u32;
+		final_delta = (offd - 1 + wait).max(0) as u32;
 		hops.push(RouteHop {
 			pubkey: net.nodes[1].node.get_our_node_id(),
 			node_features: NodeFeatures::from_le_bytes(net.nodes[1].node.node_features().le_flags().to_vec()),
@@ -578,6 +585,9 @@ fn run_case(run: u64, s: &Value, net_out: &mut Option<Net>) {
 		None => { net.ev(json!({"ev":"skip","why":"no update_add"})); return; },
 	};
 	net.pump(&[]);
+	for _ in 0..wait {
+		net.block(&[]);
+	}
 	let h0 = net.height;
 	let ed_asked = if role == "fwd" { (h0 as i64 + offd) as u32 } else { 0 };
 	net.ev(json!({"ev":"offer","h":h0,"eu":eu,"ed":ed_asked}));
